@@ -20,6 +20,7 @@ CLAIMED = {
     "C12": ("crit", "§6 C12", "CritPath.tla defines the zero-float leaves and, independently, the leaves on a longest chain; TLC checks the two definitions equal on every bounded input (MC_CritPath) and compares WBS.critical_path() of the real code with Critical(I) on every forest shape of <=4/5 tasks with link placements on leaves and summaries, ties, zero lengths, and integer/dyadic/decimal amounts, plus seeded random WBSs."),
     "C18": ("query", "§6 C18", "Query.tla defines Matches/Select for plain keywords, the twelve suffixes (with its own regular-expression search) and callables, and the effect of bulk assignment and remove_all; seeded worlds with present/absent/None attributes are queried through every list of the API and TLC compares the returned list (order and members), the unchanged world, the bulk-assigned attributes and the post-removal structure with the model."),
     "C10": ("copy", "§6 C10", "In every reachable state of the real objects of the small universe (shared ids, 2 WBSs, links to outside tasks) each WBS is cloned and sub-treed for every selection of <=2 roots; TLC judges the copy against TaskGraph.tla's state: members, fresh objects, owner, field values, root order, hierarchy, links inside the selection reproduced, links to other members dropped, links to outside tasks kept on the same objects (mirror side included), WBS attributes, source unchanged; independence is probed by mutating each side."),
+    "C13": ("csv", "§6 C13", "CsvIO.tla models the file layout at the level of rows and cells (Rows) and the reading (Parse); TLC checks Parse(Rows(W)) ~ W and the fixpoint on every bounded world (MC_CsvIO) and compares, for seeded worlds with adversarial strings, boundary dates, ids 0/negative, sparse custom attributes: the decoded written file with Rows(W), read_csv(write_csv(w)) with W, files written by the harness in the documented layout (with and without BOM) with W, and byte equality of the second and third generation files."),
 }
 NOT_YET = {}
 ALL = ["C%02d" % i for i in range(1, 21)]
@@ -56,6 +57,8 @@ def main():
                      "kind_free_text": "TLA+ Query/QueryTrace"},
                     {"name": "copy", "path": "/verif/harness/eng_copy.py", "serves_properties": ["C10"],
                      "kind_free_text": "TLA+ CopyTrace (TaskGraph definitions); clone/subtree on every reachable state"},
+                    {"name": "csv", "path": "/verif/harness/eng_csv.py", "serves_properties": ["C13"],
+                     "kind_free_text": "TLA+ CsvIO/MC_CsvIO/CsvTrace"},
                     {"name": "calendar", "path": "/verif/harness/eng_calendar.py", "serves_properties": ["C17"],
                      "kind_free_text": "TLA+ Calendar/CalendarTrace; enumerated expression trees judged by TLC"}],
         "checks": checks,
